@@ -93,6 +93,11 @@ def check_case(ctx, cs):
                         ctx.violate("helpers.basis_function_ders", tg, dict(small, order=order, k=k), {"expected": fl(D[k]), "got": r[k]})
                     elif k >= 1 and abs(sum(r[k])) > 1e-7 * max(1.0, max(abs(x) for x in r[k])):
                         ctx.violate("helpers.basis_function_ders", tg + ["sum_zero"], dict(small, order=order, k=k), {"got": r[k]})
+        # list wrapper: one table per (span, parameter) pair, in order
+        omax = min(p, len(D) - 1)
+        ok, r = _call(ctx, "helpers.basis_functions_ders", tg, small, helpers.basis_functions_ders, p, U, [span, span], [u, u], omax)
+        if ok and not (len(r) == 2 and all(len(t) == omax + 1 and all(close_seq(t[k], D[k], 1e-8) for k in range(omax + 1)) for t in r)):
+            ctx.violate("helpers.basis_functions_ders", tg, dict(small, order=omax), {"got_first": r[0][:2] if r else r})
         # derivatives of one basis function (A2.5 is defined on the half-open support, so not at the domain end)
         if not at_end:
             for j in range(p + 1):
